@@ -77,6 +77,8 @@ def gen_in_site(rng, name, idx, opts):
         if rng.random() < 0.35:
             site['fallbacks'] = rng.sample(['fetch', 'load', 'cfg', 'in0', 'in1', 'gone'], rng.randint(1, 2))
             site['fallbacksAsFunction'] = rng.random() < 0.4
+            # (any iterable of aliases will do: a tuple, the keys of a rename map, a frozenset constant)
+            site['fallbacksShape'] = rng.choice([None, None, 'tuple', 'keys', 'frozenset'])
         elif opts.get('faults') and rng.random() < 0.05:
             site['fallbacks'] = 'raises'
     if not opts.get('policies') and opts.get('fallbacks') and rng.random() < 0.35:
@@ -283,6 +285,10 @@ def gen_history(rng, opts):
                    'saveFails': bool(opts.get('faults')) and rng.random() < 0.1}
             if rng.random() < 0.12:
                 run['inHandler'] = rng.choice(['RuntimeError', 'RuntimeError', 'KeyboardInterrupt'])
+            if not run['enabled'] and not classes[cname].get('classLevel') and rng.random() < 0.4:
+                # recording is off: the decorators are pure pass-through, however the service spells the call -
+                # `Service.execute(self=obj, script=...)` has no positional argument at all
+                run['kwOnly'] = True
             if classes[cname]['hasExtractor']:
                 run['extractor'] = rng.choice([{'ok': [['user', rand_value(rng, 1)], ['n', {'i': '3'}]]}, {'ok': []}, 'raise',
                                                'junk5', 'junkpairs', 'junknone'])
